@@ -231,10 +231,12 @@ def replay_cases(ctx: Ctx, wide: bool = False) -> list[dict]:
     return cases
 
 
-def replay_progs(ctx: Ctx, prop: str, clauses: set[str], kind=None) -> int:
+def replay_progs(ctx: Ctx, prop: str, clauses: set[str], kind=None, only_kinds: set | None = None) -> int:
     """TLC-enumerated test cases through the real assertion generation, `generator._minimize` (every
     strategy and direction) and export; PipelineTrace clauses on what comes out."""
-    cases = replay_cases(ctx, wide=prop == "C24")
+    cases = replay_cases(ctx, wide=prop in ("C24", "C20"))
+    if only_kinds:
+        cases = [c for c in cases if any(s["k"] in only_kinds for t in c["tests"] for s in t)]
     if prop == "C24":
         # without assertions the unused bindings become bare expression statements (`var_0.total`)
         cases = cases + [dict(c, assertions=False) for c in cases[: len(cases) // 2]]
@@ -252,7 +254,7 @@ def replay_progs(ctx: Ctx, prop: str, clauses: set[str], kind=None) -> int:
     for c, r in zip(cases, results):
         by_cfg: dict[str, list] = {}
         for e in r["ev"]:
-            if e["ev"] != {"C19": "Asserted", "C22": "Minimize", "C18": "Test", "C24": "Reparse"}[prop]:
+            if e["ev"] != {"C19": "Asserted", "C22": "Minimize", "C18": "Test", "C24": "Reparse", "C20": "Test"}[prop]:
                 continue
             by_cfg.setdefault(e["cfg"], []).append(e)
         for cfg, evs in by_cfg.items():
@@ -304,7 +306,7 @@ def replay_one(ctx: Ctx, rec: dict, prop: str, clauses: set[str]) -> int:
 
     beh = rec["behaviour"]
     r = _replay_case((beh["replay"], str(ctx.work / "pp")))
-    evs = [e for e in r["ev"] if e["cfg"] == beh["cfg"] and e["ev"] == {"C19": "Asserted", "C22": "Minimize", "C18": "Test", "C24": "Reparse"}[prop]]
+    evs = [e for e in r["ev"] if e["cfg"] == beh["cfg"] and e["ev"] == {"C19": "Asserted", "C22": "Minimize", "C18": "Test", "C24": "Reparse", "C20": "Test"}[prop]]
     print(json.dumps(r["baseline"], indent=1)[:2000])
     print(json.dumps(evs, indent=1)[:3000])
     v = ctx.validate("PipelineTrace", [{"ev": evs}])
